@@ -26,5 +26,6 @@ CFG = {
     "assumptions": ["state ids are non-negative (DFA.Next reserves -1 for 'no transition') and symbol 0 is epsilon, never an input symbol",
                     "list.Queue is a FIFO (after the repair of D18, /repo 713e226); Go map iteration order does not influence any result (only sets are built from maps)",
                     "EliminateDeadStates' recursive dfs is modelled by an explicit stack: same visited set",
-                    "fuel of the model loops: epsilon-closure |T|+|Q|+3, subset construction 2^(|Q|+1)+1, partition refinement |Q|+3, BFS |Q|+3 (Hang is a value; never observed)"],
+                    "fuel of the model loops (all proved sufficient: C13_accept_nfa, C13_todfa, C13_minimize, C13_eliminate_dead_states, C13_reindex_states): epsilon-closure |T|+|Q|+3, subset construction 2^(|Q|+1)+1, partition refinement 2(|Q|+1)^2+3, reverse reachability 2|Q|+5, BFS |Q|+3",
+                    "Concat is compared on every operand tuple; outside the proved domain (csafe) a language mismatch carries the D13a signature and is the known finding, inside it is a violation"],
 }
